@@ -14,6 +14,7 @@
 #include <boost/gil.hpp>
 #include <boost/mp11.hpp>
 #include <boost/gil/io/read_image.hpp>
+#include <boost/gil/io/read_and_convert_image.hpp>
 #include <boost/gil/io/write_view.hpp>
 #include "harness.hpp"
 #include <fstream>
@@ -173,5 +174,57 @@ template <typename F> std::string guarded(F f) {
     close(fd[0]); int st = 0; waitpid(p, &st, 0);
     if (WIFEXITED(st) && WEXITSTATUS(st) == 0) return r;
     return "ub"; }
+
+// reuse: several write_view / read round trips through ONE destination image object.
+//   reuse <fmt> <pix> <api> <dev> <pw> <ph> <k> (<w> <h> <hex>){k}   ->  <w1'> <h1'> <px1> | <w2'> <h2'> <px2> | ...
+// The destination starts as a pw x ph image full of junk (0 0: default-constructed); api: ri read_image | rc read_and_convert_image.
+// A reader that decodes into a destination of stale dimensions writes outside the image: the whole op runs in a child (`ub`).
+struct step_t { int w, h; bytes px; };
+template <typename Tag, typename Img> void read_dev_api(bool conv, std::string const& dev, Img& out, std::string const& path, bytes const& data) {
+    if (!conv) { read_dev<Tag>(dev, out, path, data); return; }
+    if (dev == "fn") { gil::read_and_convert_image(path, out, Tag()); return; }
+    if constexpr (has_file_ptr<Tag>::value) if (dev == "fp") { FILE* f = std::fopen(path.c_str(), "rb"); gil::read_and_convert_image(f, out, Tag()); return; }
+    if (dev == "of") { std::ifstream in(path, std::ios::binary); gil::read_and_convert_image(in, out, Tag()); return; }
+    std::stringstream in(std::string(data.begin(), data.end()), std::ios::in | std::ios::binary); gil::read_and_convert_image(in, out, Tag()); }
+template <typename Tag, typename Img, int CB, typename Info = Tag>
+std::string reuse_seq(std::string const& api, std::string const& dev, int pw, int ph, std::vector<step_t> const& steps, std::string const& path, Info const& info = Info()) {
+    return guarded([&] {
+        Img dest;
+        if (pw > 0 && ph > 0) { dest.recreate(pw, ph); junk(gil::view(dest)); }
+        std::string out;
+        for (size_t i = 0; i < steps.size(); ++i) {
+            step_t const& s = steps[i];
+            Img src(s.w, s.h); fill<CB>(gil::view(src), s.px);
+            bytes file = write_dev<Tag>(dev, gil::const_view(src), path, info);
+            if (i) out += " | ";
+            try { read_dev_api<Tag>(api == "rc", dev, dest, path, file); }
+            catch (std::ios_base::failure const&) { out += "err:io"; continue; }
+            bool huge = (long long)dest.width() * dest.height() > 4ll * (s.w * s.h + pw * ph) + 64;
+            out += std::to_string(dest.width()) + " " + std::to_string(dest.height()) + " " + (huge ? std::string("-") : hex(dump<CB>(gil::const_view(dest)))); }
+        return out; }); }
+// the pnm gray1 writer only accepts the mutable view of a gray1 image
+template <typename Tag, typename Img, int CB, typename Info = Tag>
+std::string reuse_seq_mut(std::string const& api, std::string const& dev, int pw, int ph, std::vector<step_t> const& steps, std::string const& path, Info const& info = Info()) {
+    return guarded([&] {
+        Img dest;
+        if (pw > 0 && ph > 0) { dest.recreate(pw, ph); junk(gil::view(dest)); }
+        std::string out;
+        for (size_t i = 0; i < steps.size(); ++i) {
+            step_t const& s = steps[i];
+            Img src(s.w, s.h); fill<CB>(gil::view(src), s.px);
+            bytes file = write_dev<Tag>(dev, gil::view(src), path, info);
+            if (i) out += " | ";
+            try { read_dev_api<Tag>(false, dev, dest, path, file); }
+            catch (std::ios_base::failure const&) { out += "err:io"; continue; }
+            bool huge = (long long)dest.width() * dest.height() > 4ll * (s.w * s.h + pw * ph) + 64;
+            out += std::to_string(dest.width()) + " " + std::to_string(dest.height()) + " " + (huge ? std::string("-") : hex(dump<CB>(gil::const_view(dest)))); }
+        return out; }); }
+// parse the tail of a reuse op
+inline bool parse_reuse(std::vector<std::string> const& w, std::string& api, std::string& dev, int& pw, int& ph, std::vector<step_t>& steps) {
+    if (w.size() < 11 || w[0] != "reuse") return false;
+    api = w[3]; dev = w[4]; pw = std::atoi(w[5].c_str()); ph = std::atoi(w[6].c_str()); int k = std::atoi(w[7].c_str());
+    if (k < 1 || w.size() != (size_t)(8 + 3 * k)) return false;
+    for (int i = 0; i < k; ++i) steps.push_back(step_t{std::atoi(w[8 + 3 * i].c_str()), std::atoi(w[9 + 3 * i].c_str()), unhex(w[10 + 3 * i])});
+    return true; }
 
 }  // namespace c12
